@@ -15,6 +15,7 @@ import (
 	"sort"
 	"strings"
 	"sync"
+	"time"
 
 	"storj.io/drpc"
 	"storj.io/drpc/drpcmanager"
@@ -38,7 +39,28 @@ type scen struct {
 	unary bool
 	split int
 	wbuf  int
+	// deadline: the client's context ends with DeadlineExceeded instead of Canceled
+	deadline bool
 }
+
+// manualDeadlineCtx is a context with a deadline whose expiry the scenario triggers itself.
+type manualDeadlineCtx struct {
+	context.Context
+	done chan struct{}
+	once sync.Once
+}
+
+func (m *manualDeadlineCtx) Done() <-chan struct{} { return m.done }
+func (m *manualDeadlineCtx) Err() error {
+	select {
+	case <-m.done:
+		return context.DeadlineExceeded
+	default:
+		return nil
+	}
+}
+func (m *manualDeadlineCtx) Deadline() (time.Time, bool) { return time.Now().Add(time.Hour), true }
+func (m *manualDeadlineCtx) expire()                     { m.once.Do(func() { close(m.done) }) }
 
 func (s scen) hasOp(x string) bool {
 	for _, o := range s.ops {
@@ -50,7 +72,7 @@ func (s scen) hasOp(x string) bool {
 }
 
 func (s scen) String() string {
-	return fmt.Sprintf("side=%s soft=%v net=%s point=%s ops=[%s] unary=%v split=%d wbuf=%d", s.side, s.soft, s.net, s.point, strings.Join(s.ops, ","), s.unary, s.split, s.wbuf)
+	return fmt.Sprintf("side=%s soft=%v net=%s point=%s ops=[%s] unary=%v split=%d wbuf=%d deadline=%v", s.side, s.soft, s.net, s.point, strings.Join(s.ops, ","), s.unary, s.split, s.wbuf, s.deadline)
 }
 
 type opRec struct {
@@ -100,6 +122,14 @@ func run(id string, sc scen) runner.Result {
 				}
 				return nil
 			}
+			if i == 0 && sc.point == "decode-error" {
+				// a message the client's decoder rejects; the RPC goes on afterwards
+				u := payload.Undecodable(12)
+				if err := stream.MsgSend(&u, payload.Enc{}); err != nil {
+					return nil
+				}
+				continue
+			}
 			if (i < 2 && sc.point == "mid") || (sc.hasOp("recv-held") && m != nil && len(m) == payload.HeaderLen+51) {
 				if err := stream.MsgSend(&m, payload.Enc{}); err != nil {
 					return nil
@@ -118,6 +148,14 @@ func run(id string, sc scen) runner.Result {
 	}()
 	ctx, cancel := context.WithCancel(context.Background())
 	defer cancel()
+	var ctxErr = context.Canceled
+	if sc.deadline && sc.side == "client" {
+		// the RPC's context ends by its deadline rather than by a cancel function: the calls must
+		// report that error. (The expiry is triggered by hand so that it lands where the scenario wants it.)
+		mc := &manualDeadlineCtx{Context: context.Background(), done: make(chan struct{})}
+		ctx, cancel, ctxErr = mc, mc.expire, context.DeadlineExceeded
+		defer cancel()
+	}
 	var fails []string
 	failf := func(f string, a ...interface{}) { fails = append(fails, fmt.Sprintf(f, a...)) }
 
@@ -126,7 +164,6 @@ func run(id string, sc scen) runner.Result {
 	var st drpc.Stream
 	var ops []*opRec
 	var cancelRPC func()
-	var ctxErr = context.Canceled
 	var heldPark *director.Park
 	cancel2 := func() {}
 
@@ -168,6 +205,13 @@ func run(id string, sc scen) runner.Result {
 					var m []byte
 					cst.MsgRecv(&m, payload.Enc{})
 				}
+			}
+		case "decode-error":
+			// an earlier receive of this RPC failed in the decoder; the application carries on
+			send(cst, 10)
+			var m []byte
+			if err := cst.MsgRecv(&m, payload.Enc{}); !errors.Is(err, payload.ErrUndecodable) {
+				return runner.Inconcl(id, "setup: the undecodable message did not arrive as a decode error: "+rig.ErrStr(err))
 			}
 		case "half":
 			send(cst, 10)
@@ -611,8 +655,8 @@ func gen(tier string, seed uint64) []runner.Scenario {
 		}
 		for _, soft := range []bool{false, true} {
 			for _, net := range []string{"flowing", "wstall", "stall"} {
-				for _, point := range []string{"corked", "flushed", "mid", "half"} {
-					if side == "server" && point == "corked" {
+				for _, point := range []string{"corked", "flushed", "mid", "half", "decode-error"} {
+					if side == "server" && (point == "corked" || point == "decode-error") {
 						continue
 					}
 					// admissible sets: subsets of size 1..3 in a fixed order
@@ -684,6 +728,7 @@ func gen(tier string, seed uint64) []runner.Scenario {
 		sc := sc
 		sc.split = payload.Pick(r, []int{0, 64, 1024, -1})
 		sc.wbuf = payload.Pick(r, []int{0, 100, 1})
+		sc.deadline = r.Intn(3) == 0
 		if tier != "thorough" && i%3 != int(seed%3) {
 			continue
 		}
